@@ -17,7 +17,7 @@ ORACLES = {
                           "elements_added == sum of bin counts == outstanding additions, unique_elements == number of bins; load_factor "
                           "== stored entries / (capacity*bucket_size); after every step incl. evictions, expansions, failed inserts",
     "C14.qf_counter": "QuotientFilter: elements_added == number of stored hashes after every add/remove/resize/merge",
-    "C14.no_exception": "no unexpected exception",
+    "C14.no_exception": "(soft) an unexpected exception abandons the case; counted, not reported - the operation's own property has a check",
 }
 RULE = ("One structure per case, drawn uniformly from the drivers of C01 (Bloom / on-disk / expanding with union, reload, reopen), C09/C10 "
         "(expanding / rotating), C08 (counting Bloom), C02 (count-min, HeavyHitters, StreamThreshold, plus reload and join), C03 (both "
@@ -62,6 +62,7 @@ def strategy(tier):
 
 def run_case(case, ctx):
     t = case["t"]
+    ctx.soft_noexc = True
     before = set(ctx.features)
     if t == "bloom":
         d = bloom.BloomDriver(case, ctx, {"counter": "C14.bloom_counter", "stats": "C14.bloom_stats"})
